@@ -367,6 +367,8 @@ class Driver:
                 if t_start - te >= 3 * T / 1000.0 + 2.0:
                     exp_must = max(exp_must, idx)
         self.times[len(self.lines) + 1] = (t_start, t_end)
+        if T is not None and t_end - t_start >= T / 1000.0:
+            exp_may = max(exp_may, len(self.lines) + 1)     # the round itself lasted longer than the timeout
         line = {'e': 'Round', 'expMay': exp_may, 'expMust': exp_must, 'ops': [rec_ops[s] for s in sorted(self.slots)], 'sync': sync,
                 'obs': [obs[s] for s in sorted(self.slots)], 'eof': eof, 'stall': self.stall}
         self.lines.append(line)
